@@ -507,6 +507,15 @@ func genC19(rt *rapid.T) c19Case {
 			r0.Doc, r0.Target, r0.Mangle, r0.depth, r0.Binary = doc, rapid.SampledFrom([]string{"any", "string", "raw"}).Draw(rt, "bigTarget"), "", 0, false
 		}
 	}
+	if rapid.IntRange(0, 11).Draw(rt, "hugeDoc") == 0 {
+		// a document of 0.5 - 1 MB (the read limit of these connections is 1 MiB) somewhere in the sequence: buffers
+		// that have grown this far are what pools treat specially (cap them, replace them, shrink them)
+		n := rapid.SampledFrom([]int{520000, 523776, 524288, 524300, 700000, 1000000}).Draw(rt, "hugeLen")
+		doc, _ := json.Marshal(strings.Repeat("h", n))
+		k := rapid.IntRange(0, len(c.Reads)-1).Draw(rt, "hugeAt")
+		r := &c.Reads[k]
+		r.Doc, r.Target, r.Mangle, r.depth, r.Binary, r.Compress = doc, rapid.SampledFrom([]string{"any", "string", "raw"}).Draw(rt, "hugeTarget"), "", 0, false, rapid.Bool().Draw(rt, "hugeCompressed")
+	}
 	return c
 }
 
